@@ -705,6 +705,21 @@ func rulesC02(c *Ctx) {
 	binPrintC03(c, "C02.binprint")
 	silentPathRule(c, "C02.silentpath")
 	openerRule(c, "C02.opener")
+	// printing a node reads nothing but the node: a scratch buffer shared by
+	// all printers is overwritten by the nested calls of one print
+	c.Rule("C02.pure", "the String methods of the AST nodes (and what they call in the package) read no mutable package-level state: the text depends on the node alone (a package-level scratch slice reused by a recursive printer is overwritten by the inner call, so `ratio(usage, mean(idle))` prints as `ratio(idle, mean(idle))`)")
+	{
+		p := c.P
+		var names []string
+		for _, t := range p.Implementers("Node") {
+			tn := strings.TrimPrefix(p.TypeStr(t), "*")
+			if p.Method(tn, "String") != nil {
+				names = append(names, tn+".String")
+			}
+		}
+		sort.Strings(names)
+		pureRule(c, "C02.pure", names...)
+	}
 	formattersC02(c)
 	slotsC08(c)
 	// names and strings are printed through the quoting helpers: they must invert the lexer
